@@ -63,6 +63,8 @@ C15_STRS = ["", "a", "ab", "abc", "abcabc", "aaa", "aaaa", "äb", "bä", "äbä"
             "ß", "İ", "ǅ", "ὈΔΥΣΣΕΎΣ", "Σ", "aΣ", "ΑΣ ", "ﬁ", "ŉ", "ÄRGER", "École", "привет", "ÑandÚ", "Straße", "ΣΊΣΥΦΟΣ"]
 C15_ARRS = [arr(), arr(num(1.0)), arr(num(1.0), s("1"), b(True)), arr(num(3.0), num(1.0), num(2.0), num(1.0)), arr(s("b"), s("a"), s("b")), arr(arr(num(1.0)), arr(), arr(num(1.0))),
             arr(b(True), b(True), b(False)), arr(s("x"), arr(s("x")), num(0.0), num(-0.0)),
+            # members whose `=` is not transitive (true = 1 = '1' but true <> '1'): what counts is equality with the members KEPT so far, in this order
+            arr(b(True), num(1.0), s("1")), arr(s("1.0"), num(1.0), s("1")), arr(s("a"), s("2.50"), num(2.5), s("a"), s("2.5")), arr(s("0"), num(0.0), b(False), s("-0"), num(-0.0)),
             # few members, long members: the length of a needle says nothing about whether it is a member
             arr(s("abc")), arr(arr(num(1.0), num(2.0), num(3.0)), arr(num(1.0), num(2.0), num(3.0))), arr(s("hello"), num(1.0), s("hello")), arr(arr(arr(num(1.0), num(2.0))))]
 
